@@ -437,6 +437,18 @@ func (g *G) link(c ictx) Link {
 		}
 	} else {
 		l.C = g.inlines(c, 3)
+		if coin(g.s, 1, 40) {
+			// link text has no length limit (only labels are limited to 999 characters): 1000-1600 bytes of words
+			var sb strings.Builder
+			for n := 1000 + g.s.Intn(600); sb.Len() < n; {
+				if sb.Len() > 0 {
+					sb.WriteByte(' ')
+				}
+				sb.WriteString(g.word())
+			}
+			l.C = []Inline{Text{sb.String()}}
+			longTextCount++
+		}
 		if l.Form == 1 {
 			g.nlabel++
 			l.Label = fmt.Sprintf("Lbl%d %s", g.nlabel, g.labelWords())
@@ -465,7 +477,7 @@ func caseVariant(s Src, lab string) string {
 
 // ---------------- blocks ----------------
 
-var labelNLCount, nearMissCount int
+var labelNLCount, nearMissCount, longTextCount int
 var avoidWSOnly = true
 var excludedF19 int
 
